@@ -84,6 +84,11 @@ func (b *nodeBlockUtils) ValidateBlockProposal(ctx context.Context, h primitives
 		n.w.validatedBy[vb.id] = append(n.w.validatedBy[vb.id], n.id)
 		return nil
 	}
+	if vb.id%2 == 1 {
+		// a consumer that gives a validation a budget of its own and reports overrunning it with the standard error: a
+		// rejection like any other (the library's own context is alive)
+		return context.DeadlineExceeded
+	}
 	return errors.New("invalid proposal")
 }
 func (b *nodeBlockUtils) ValidateBlockCommitment(h primitives.BlockHeight, block interfaces.Block, hash primitives.BlockHash) bool {
@@ -754,6 +759,10 @@ func runWorldModeX(cfg *runCfg, name string, kf1 bool, live bool) error {
 			w = directedWorld(r, rep, cfg.seed*100000+28, 3)
 			w.borrowedShareScript()
 			rep.count("world:directed-borrowed-share-script")
+		} else if !kf1 && i == 29 {
+			w = directedWorld(r, rep, cfg.seed*100000+29, 3)
+			w.commitHashFloodScript()
+			rep.count("world:directed-commit-hash-flood-script")
 		} else {
 			w.run()
 		}
